@@ -180,8 +180,12 @@ pub fn c13_q_agreement_after_renewal() {
     server.derive_keys();
     let (cl, cr) = (client.verif_local_keys().unwrap(), client.verif_remote_keys().unwrap());
     let (sl, sr) = (server.verif_local_keys().unwrap(), server.verif_remote_keys().unwrap());
-    assert!(eq_bytes(cl.0, &sn) && eq_bytes(cl.2, &cn), "client keys: secret = server nonce, seed = client nonce (current nonces)");
-    assert!(eq_bytes(sl.0, &cn) && eq_bytes(sl.2, &sn), "server keys: secret = client nonce, seed = server nonce (current nonces)");
+    // (the tag reading only makes sense under the tagging stand-in; a native replay runs the real key derivation and
+    // checks the agreement assertions below)
+    if cfg!(not(verif_playback)) {
+        assert!(eq_bytes(cl.0, &sn) && eq_bytes(cl.2, &cn), "client keys: secret = server nonce, seed = client nonce (current nonces)");
+        assert!(eq_bytes(sl.0, &cn) && eq_bytes(sl.2, &sn), "server keys: secret = client nonce, seed = server nonce (current nonces)");
+    }
     assert!(eq_bytes(cl.0, sr.0) && eq_bytes(cl.1, sr.1) && eq_bytes(cl.2, sr.2), "client's sending keys are the server's receiving keys");
     assert!(eq_bytes(sl.0, cr.0) && eq_bytes(sl.1, cr.1) && eq_bytes(sl.2, cr.2), "server's sending keys are the client's receiving keys");
     kani::cover!(true, "end reached");
